@@ -5,9 +5,11 @@
   Families: Uniform, Exp, Cauchy, Laplace, Gumbel, Pareto, Triangular, Weibull; DiscreteUniform,
   Geometric (pmf).
   (Dirac has `mode()` but no pdf in the crate, so there is nothing to state.)
-  Findings (counterexamples): Triangular with `mode = min` (pdf at the mode is 0/0);
-  Weibull with shape < 1 (`mode()` returns a point that is not a maximiser);
-  Geometric pmf beyond `i32::MAX` (the `as i32` cast wraps and the pmf exceeds pmf(mode)).
+  Findings (counterexamples): Weibull with shape < 1 (`mode()` returns a point that is not a
+  maximiser).
+  (Two earlier findings were fixed in the source and are now positive theorems: Triangular with
+  `mode = min`/`mode = max` — `pdf` tests `x == mode` first and returns `2/(max-min)`; Geometric pmf
+  beyond `i32::MAX` — the exponent is `(x-1) as f64`, no `as i32` cast.)
 -/
 import Statrs.Real.Simp
 import Statrs.Lemmas.Quantile
@@ -113,20 +115,29 @@ theorem pareto_mode (d : Pareto ℝ) (hs : 0 < d.f_scale) (ha : 0 < d.f_shape) (
 
 example : ∃ d : Pareto ℝ, 0 < d.f_scale ∧ 0 < d.f_shape := ⟨⟨1, 1⟩, by norm_num⟩
 
-/-- Triangular with `min < mode` (the constructor only enforces `min ≤ mode`; see the
-    counterexample below for `min = mode`): the pdf is maximal at `mode()` -/
-theorem triangular_mode_partial (d : Triangular ℝ) (h1 : d.f_min < d.f_mode) (h2 : d.f_mode ≤ d.f_max) (x : ℝ) :
-    Triangular.pdf d x ≤ Triangular.pdf d (unwrapO (Triangular.mode d)) := by
-  have hba : 0 < d.f_max - d.f_min := by linarith
-  have hca : 0 < d.f_mode - d.f_min := by linarith
+/-- Triangular: the pdf at `mode()` is `2 / (max - min)` for every parameter triple (the
+    `x == mode` branch of `pdf` is tested first, so `mode = min` / `mode = max` is no longer `0/0`) -/
+theorem triangular_pdf_at_mode (d : Triangular ℝ) :
+    Triangular.pdf d (unwrapO (Triangular.mode d)) = 2 / (d.f_max - d.f_min) := by
   unfold Triangular.mode unwrapO Triangular.pdf
-  simp only []
-  rw [if_pos (⟨h1.le, le_refl _⟩ : d.f_min ≤ d.f_mode ∧ d.f_mode ≤ d.f_mode)]
-  have hval : (2.0:ℝ) * (d.f_mode - d.f_min) / ((d.f_max - d.f_min) * (d.f_mode - d.f_min)) = 2 / (d.f_max - d.f_min) := by
-    norm_num; field_simp
-  rw [hval]
-  split_ifs with hA hB
-  · rw [div_le_div_iff₀ (by positivity) hba]
+  rfun_norm
+  norm_num
+
+/-- Triangular, under exactly the constructor's acceptance predicate (`min ≤ mode ≤ max`,
+    `min ≠ max`; in particular `mode = min` and `mode = max` are included): the pdf is maximal at
+    `mode()` -/
+theorem triangular_mode (d : Triangular ℝ) (h1 : d.f_min ≤ d.f_mode) (h2 : d.f_mode ≤ d.f_max)
+    (h3 : d.f_min ≠ d.f_max) (x : ℝ) :
+    Triangular.pdf d x ≤ Triangular.pdf d (unwrapO (Triangular.mode d)) := by
+  have hab : d.f_min < d.f_max := lt_of_le_of_ne (h1.trans h2) h3
+  have hba : 0 < d.f_max - d.f_min := by linarith
+  rw [triangular_pdf_at_mode]
+  unfold Triangular.pdf
+  rfun_norm
+  split_ifs with hE hA hB
+  · norm_num
+  · have hca : 0 < d.f_mode - d.f_min := by linarith [hA.1, hA.2]
+    rw [div_le_div_iff₀ (by positivity) hba]
     norm_num
     have : x - d.f_min ≤ d.f_mode - d.f_min := by linarith [hA.2]
     nlinarith
@@ -137,17 +148,17 @@ theorem triangular_mode_partial (d : Triangular ℝ) (h1 : d.f_min < d.f_mode) (
     nlinarith
   · norm_num; positivity
 
-example : ∃ d : Triangular ℝ, d.f_min < d.f_mode ∧ d.f_mode ≤ d.f_max := ⟨⟨0, 1, 1⟩, by norm_num⟩
+example : ∃ d : Triangular ℝ, d.f_min ≤ d.f_mode ∧ d.f_mode ≤ d.f_max ∧ d.f_min ≠ d.f_max :=
+  ⟨⟨0, 1, 0⟩, by norm_num⟩
 
-/-- FINDING: `Triangular::new(0, 1, 0)` is accepted (`mode = min`); the pdf at `mode()` is
-    `2·0 / (1·0)`, which is 0 over ℝ (NaN in IEEE), while `pdf 0.5 = 1`: the pdf does not
-    attain its supremum at `mode()`. -/
-theorem triangular_mode_counterexample :
-    ∃ d : Triangular ℝ, d.f_min ≤ d.f_mode ∧ d.f_mode ≤ d.f_max ∧ d.f_min ≠ d.f_max ∧
-      ∃ x, Triangular.pdf d (unwrapO (Triangular.mode d)) < Triangular.pdf d x := by
-  refine ⟨⟨0, 1, 0⟩, by norm_num, by norm_num, by norm_num, 1 / 2, ?_⟩
-  unfold Triangular.mode unwrapO Triangular.pdf
-  norm_num
+/-- The formerly defective case `Triangular::new(0, 1, 0)` (`mode = min`): the pdf at `mode()` is
+    `2 / (1 - 0) = 2` and bounds the pdf everywhere (instance of `triangular_mode`). -/
+theorem triangular_mode_eq_min_instance :
+    Triangular.pdf (⟨0, 1, 0⟩ : Triangular ℝ) (unwrapO (Triangular.mode (⟨0, 1, 0⟩ : Triangular ℝ))) = 2 ∧
+      ∀ x, Triangular.pdf (⟨0, 1, 0⟩ : Triangular ℝ) x
+        ≤ Triangular.pdf (⟨0, 1, 0⟩ : Triangular ℝ) (unwrapO (Triangular.mode (⟨0, 1, 0⟩ : Triangular ℝ))) := by
+  refine ⟨by rw [triangular_pdf_at_mode]; norm_num, fun x => ?_⟩
+  exact triangular_mode _ (by norm_num) (by norm_num) (by norm_num) x
 
 /-! ## Weibull -/
 
@@ -309,42 +320,39 @@ theorem discrete_uniform_mode (d : DiscreteUniform) (h : d.f_min ≤ d.f_max) (x
 
 example : ∃ d : DiscreteUniform, d.f_min ≤ d.f_max := ⟨⟨0, 1⟩, by norm_num⟩
 
-/-- Geometric: for arguments up to `i32::MAX` the pmf is maximal at `mode() = 1`.
-    (Partial: the pmf casts its `u64` argument to `i32`; see the counterexample for larger x.) -/
-theorem geometric_mode_partial (d : Geometric ℝ) (h0 : 0 < d.f_p) (h1 : d.f_p ≤ 1) (x : Int)
-    (hx0 : 0 ≤ x) (hx : x ≤ i32Max) :
+/-- Geometric: the pmf at `mode() = 1` is `p` -/
+theorem geometric_pmf_at_mode (d : Geometric ℝ) :
+    Geometric.pmf d (unwrapO (Geometric.mode d)) = d.f_p := by
+  unfold Geometric.mode unwrapO Geometric.pmf usub
+  rfun_norm
+  norm_num
+
+/-- Geometric: for every `u64` argument (`0 ≤ x`; no upper bound is needed — the exponent is now
+    `(x - 1) as f64`, not an `i32` cast) the pmf is maximal at `mode() = 1`. -/
+theorem geometric_mode (d : Geometric ℝ) (h0 : 0 < d.f_p) (h1 : d.f_p ≤ 1) (x : Int)
+    (hx0 : 0 ≤ x) :
     Geometric.pmf d x ≤ Geometric.pmf d (unwrapO (Geometric.mode d)) := by
-  have hm : Geometric.pmf d (unwrapO (Geometric.mode d)) = d.f_p := by
-    unfold Geometric.mode unwrapO Geometric.pmf wrapI32
-    rfun_norm
-    norm_num
-  rw [hm]
+  rw [geometric_pmf_at_mode]
   unfold Geometric.pmf
   rfun_norm
   split_ifs with hz
   · rw [show (0.0:ℝ) = 0 by norm_num]; exact h0.le
-  · have hw : wrapI32 x = x := by unfold wrapI32; unfold i32Max at hx; omega
-    rw [hw]
-    obtain ⟨n, hn⟩ := Int.eq_ofNat_of_zero_le (show 0 ≤ x - 1 by omega)
-    rw [hn, zpow_natCast]
+  · have hu : usub x 1 = x - 1 := by unfold usub; rw [if_neg (by omega)]
+    rw [hu]
     have hb0 : (0:ℝ) ≤ (1.0:ℝ) - d.f_p := by norm_num; exact h1
     have hb1 : (1.0:ℝ) - d.f_p ≤ 1 := by norm_num; exact h0.le
-    have := pow_le_one₀ hb0 hb1 (n := n)
+    have he : (0:ℝ) ≤ ((x - 1 : Int) : ℝ) := by exact_mod_cast (show (0:Int) ≤ x - 1 by omega)
+    have := Real.rpow_le_one hb0 hb1 he
     nlinarith
 
 example : ∃ d : Geometric ℝ, 0 < d.f_p ∧ d.f_p ≤ 1 := ⟨⟨1 / 2⟩, by norm_num⟩
 
-/-- FINDING: `Geometric::pmf` computes `(1-p).powi(x as i32 - 1) * p`; for `x = 2^32` the cast wraps
-    to 0, the exponent is −1 and, for `p = 1/2`, `pmf(2^32) = 1 > pmf(mode()) = 1/2`. -/
-theorem geometric_mode_counterexample :
-    ∃ d : Geometric ℝ, 0 < d.f_p ∧ d.f_p ≤ 1 ∧ ∃ x : Int, 0 ≤ x ∧ x ≤ u64Max ∧
-      Geometric.pmf d (unwrapO (Geometric.mode d)) < Geometric.pmf d x ∧ Geometric.pmf d x = 1 := by
-  refine ⟨⟨1 / 2⟩, by norm_num, by norm_num, 4294967296, by norm_num, by unfold u64Max; norm_num, ?_, ?_⟩
-  · unfold Geometric.mode unwrapO Geometric.pmf wrapI32
-    rfun_norm
-    norm_num
-  · unfold Geometric.pmf wrapI32
-    rfun_norm
-    norm_num
+/-- The formerly defective argument `x = 2^32` (the old `x as i32` cast wrapped it to 0 and the pmf
+    was 1 > pmf(mode)): for `p = 1/2` the pmf there is now `(1/2)^(2^32 - 1) · 1/2 ≤ 1/2 = pmf(mode())`. -/
+theorem geometric_mode_beyond_i32_instance :
+    Geometric.pmf (⟨1 / 2⟩ : Geometric ℝ) 4294967296
+      ≤ Geometric.pmf (⟨1 / 2⟩ : Geometric ℝ) (unwrapO (Geometric.mode (⟨1 / 2⟩ : Geometric ℝ))) ∧
+    Geometric.pmf (⟨1 / 2⟩ : Geometric ℝ) (unwrapO (Geometric.mode (⟨1 / 2⟩ : Geometric ℝ))) = 1 / 2 :=
+  ⟨geometric_mode _ (by norm_num) (by norm_num) _ (by norm_num), geometric_pmf_at_mode _⟩
 
 end Statrs.Props.C08
